@@ -45,7 +45,7 @@ def scenarios(ctx):
     quick = ctx.quick
     consts = dict(MaxL=5 if quick else 6, MaxCS=3 if quick else 4, Ws="{1, 2, 3}" if quick else "{1, 2, 3, 4}", Pres='{"absent"}', Faults="{0}", Wheres='{"reader"}', Kills='{"none"}', BufSizes="{0, 1, 2, 3}", Deviations="{}")
     res = tlc.run("CreatePipeline", tlc.make_cfg(constants=consts, invariants=["TypeOK", "BufferedOrWritten", "ExactOnSuccess", "FailStop", "PrintDone"], properties=["Termination"]),
-                  coverage=True, timeout=1500)
+                  coverage=True, timeout=3600)
     ctx.add_tlc("CreatePipeline fault-free scenarios, all schedules", res, constants=consts)
     ctx.require(res.ok, f"CreatePipeline violated: {res.error_kind} {res.error_name}")
     for act in ("SeqChunk", "SeqFinal", "MRead", "Work", "MMapDone", "MPutEOQ", "MJoin", "WInit", "WGet", "Load"):
